@@ -455,7 +455,108 @@ def h6_names(nmax=3, timeout=200, part=None, **kw):
                          timeout, concretize=conc, part=part)
 
 
+# ------------------------------------------------------------------------------------------------ H7 image samples behind real lossless filter chains
+CHAINS = ["none", "flate", "flate+png10", "flate+png12", "flate+png15", "flate+tiff", "lzw", "lzw+png10", "rl", "ahx", "a85", "a85+flate", "ahx+rl", "a85+flate+png15"]
+CHAIN_GEOM = [(3, 2, "rgb"), (5, 3, "gray"), (9, 2, "bit"), (1, 1, "gray")]
+
+
+def _chain_stream(chain, w, h, kind):
+    """a real PDFStream holding a w x h image (RGB / gray 8-bit / 1-bit) behind the named filter chain, encoded by the reference encoders of C03; returns (stream, stored samples)"""
+    import zlib
+    from pdfminer.pdftypes import PDFStream
+    from pdfminer.psparser import LIT
+    from harness import C03
+    colors, bits = (3, 8) if kind == "rgb" else (1, 8 if kind == "gray" else 1)
+    rowbytes = (w * colors * bits + 7) // 8
+    samples = bytes((37 * i + 11) % 256 for i in range(rowbytes * h))
+    if kind == "bit":                       # unused low bits of the last byte of a row are zero
+        pad = rowbytes * 8 - w
+        samples = bytes((b & (0xFF << pad) & 0xFF) if (i % rowbytes) == rowbytes - 1 else b for i, b in enumerate(samples))
+    NAMES = {"flate": "FlateDecode", "lzw": "LZWDecode", "rl": "RunLengthDecode", "ahx": "ASCIIHexDecode", "a85": "ASCII85Decode"}
+    ENC = {"flate": lambda d: zlib.compress(d), "lzw": C03.ref_lzw, "rl": C03.ref_rl, "ahx": lambda d: d.hex().upper().encode() + b">", "a85": C03.ref_a85}
+    steps = []                              # [(filter, predictor or None)] in decoding order
+    for part in ([] if chain == "none" else chain.split("+")):
+        if part.startswith("png") or part == "tiff":
+            steps[-1] = (steps[-1][0], 2 if part == "tiff" else int(part[3:]))
+        else:
+            steps.append((part, None))
+    data = samples
+    for f, pred in reversed(steps):
+        if pred == 2:
+            if bits != 8:
+                return None, None
+            data = b"".join(bytes((row[j] - (row[j - colors] if j >= colors else 0)) % 256 for j in range(rowbytes)) for row in [data[i:i + rowbytes] for i in range(0, len(data), rowbytes)])
+        elif pred:
+            fts = {10: (0,), 12: (2,), 15: (0, 1, 2, 3, 4)}[pred]
+            data = (C03.ref_png(data, colors, w, fts) if bits == 8 else C03.ref_png(data, 1, rowbytes, fts))[0]
+        data = ENC[f](data)
+    attrs = {"Type": LIT("XObject"), "Subtype": LIT("Image"), "Width": w, "Height": h, "BitsPerComponent": bits, "ColorSpace": LIT("DeviceRGB" if kind == "rgb" else "DeviceGray")}
+    if steps:
+        parms = [None if pred is None else {"Predictor": pred, "Colors": colors, "Columns": w, "BitsPerComponent": bits} for _, pred in steps]
+        attrs["Filter"] = [LIT(NAMES[f]) for f, _ in steps] if len(steps) > 1 else LIT(NAMES[steps[0][0]])
+        if any(q is not None for q in parms):
+            attrs["DecodeParms"] = parms if len(steps) > 1 else parms[0]
+    return PDFStream(attrs, data), samples
+
+
+def _chain_check(sel):
+    import os, shutil, tempfile
+    import pdfminer.image as im
+    from pdfminer.layout import LTImage
+    chain, (w, h, kind) = CHAINS[sel["chain"]], CHAIN_GEOM[sel["geom"]]
+    st, samples = _chain_stream(chain, w, h, kind)
+    if st is None:
+        return None
+    desc = "%dx%d %s image stored through the filter chain %s" % (w, h, kind, chain)
+    d = tempfile.mkdtemp(prefix="verif-c18c-")
+    try:
+        img = LTImage("Im0", st, (0, 0, w, h))
+        got = img.stream.get_data()
+        if got != samples:
+            return "%s: LTImage.stream.get_data() gives %d bytes %r..., stored were %d bytes %r..." % (desc, len(got), got[:12], len(samples), samples[:12])
+        name = im.ImageWriter(os.path.join(d, "out")).export_image(img)
+        cells = list(open(os.path.join(d, "out", name), "rb").read())
+        if not name.endswith(".bmp"):
+            return "%s: exported as %r" % (desc, name)
+        W, H, B, rows, pal = read_bmp(cells)
+        rowbytes = len(samples) // h
+        for y in range(h):
+            for x in range(w):
+                px = rows[y][x]
+                if kind == "rgb":
+                    ok = tuple(px) == tuple(samples[y * rowbytes + 3 * x: y * rowbytes + 3 * x + 3])
+                elif kind == "gray":
+                    ok = pal[px[1]] == (samples[y * rowbytes + x],) * 3
+                else:
+                    bit = (px[1] >> px[2]) & 1
+                    ok = bit == (samples[y * rowbytes + x // 8] >> (7 - x % 8)) & 1
+                if not ok:
+                    return "%s: pixel (%d,%d) of the exported BMP reads %r, the stored sample differs" % (desc, x, y, px)
+        return None
+    except Exception as e:
+        return "%s: raised %s: %s" % (desc, type(e).__name__, str(e)[:200])
+    finally:
+        shutil.rmtree(d, ignore_errors=True)
+
+
+def h7_chains(timeout=200, part=None, **kw):
+    import pdfminer.image as im
+    import pdfminer.pdftypes as pt
+
+    def fn(ex):
+        sel = {"chain": ex.choice(len(CHAINS), "chain"), "geom": ex.choice(len(CHAIN_GEOM), "geom")}
+        r = _chain_check(sel)
+        ex.require(r is None, r or "", chainsel=sel)
+
+    def conc(m, info):
+        return {"chainsel": info["chainsel"]}
+    return core.run_symx("H7_chains", fn, [pt.PDFStream.decode, im.ImageWriter.export_image, im.ImageWriter._save_bmp], {"chains": CHAINS, "geometries": CHAIN_GEOM, "encoders": "reference encoders of C03, zlib"},
+                         timeout, concretize=conc, part=part)
+
+
 def replay(harness, inp):
+    if "chainsel" in inp:
+        return _chain_check(inp["chainsel"])
     if harness == "H6_names":
         return _check_names([tuple(x) for x in inp["seq"]])
     import pdfminer.image as im
@@ -552,7 +653,7 @@ GEOMS_Q = [(1, 1, 24), (2, 2, 24), (3, 1, 24), (1, 1, 8), (3, 2, 8), (5, 1, 8), 
 
 
 def jobs(tier):
-    J = [Job("H2_format", "h2_format", {}, 100)] + [Job("H6_names:%d" % k, "h6_names", {"nmax": 3 if tier == "quick" else 4, "part": [k, 4, 4]}, 300, "H6_names") for k in range(4)] + [Job("H5_inline_long:%d" % k, "h5_inline_long", {"part": [k, 4, 5]}, 300, "H4_inline") for k in range(4)]
+    J = [Job("H2_format", "h2_format", {}, 100), Job("H7_chains", "h7_chains", {}, 200)] + [Job("H6_names:%d" % k, "h6_names", {"nmax": 3 if tier == "quick" else 4, "part": [k, 4, 4]}, 300, "H6_names") for k in range(4)] + [Job("H5_inline_long:%d" % k, "h5_inline_long", {"part": [k, 4, 5]}, 300, "H4_inline") for k in range(4)]
     geoms = [(w, h, b) for b in (24, 8, 1) for w in (1, 2, 3, 4, 5, 7, 8, 9) for h in (1, 2, 3)]
     if tier == "thorough":
         geoms += [(w, h, b) for b in (24, 8, 1) for w in (15, 16, 17, 33) for h in (1, 4)]
